@@ -13,48 +13,52 @@ HERE = os.path.dirname(os.path.abspath(__file__))
 H = {}
 
 
-def reg(name, props, what, fn=None, complete=True, bound=None, tier='quick', should_panic=False):
-    H[name] = {'name': name, 'props': props, 'complete': complete, 'bound': bound, 'what': what, 'fn': fn, 'tier': tier}
+def reg(name, props, what, fn=None, complete=True, bound=None, tier='quick', secondary=()):
+    H[name] = {'name': name, 'props': props, 'secondary': list(secondary), 'complete': complete, 'bound': bound, 'what': what,
+               'fn': fn, 'tier': tier}
 
 
-reg('msg_flags_getters', ['C14', 'C05', 'C04', 'C10'], 'message::flags::Flags getters == arithmetic flag-word predicates, all 65536 words',
-    fn='message::flags::Flags::{get_type,has_length,has_ns_nr,has_offset,is_prioritized,get_version,get_bit}')
+reg('msg_flags_type_length_sequence', ['C05'], 'message::flags::Flags::{get_type,has_length,has_ns_nr} == arithmetic flag-word predicates, all 65536 words',
+    fn='message::flags::Flags::{get_type,has_length,has_ns_nr,get_bit}', secondary=['C14', 'C04', 'C03', 'C10', 'C08'])
+reg('msg_flags_offset_priority_version', ['C05', 'C14'], 'Flags::{has_offset,is_prioritized,get_version} == arithmetic flag-word predicates, all 65536 words',
+    fn='message::flags::Flags::{has_offset,is_prioritized,get_version,get_bit}', secondary=['C04', 'C10', 'C20'])
 reg('msg_flags_reserved_bits_ok', ['C14', 'C05'], 'reserved_bits_ok == bits {0,1,2,3,10,11,13} clear, all 65536 words',
     fn='message::flags::Flags::reserved_bits_ok')
-reg('msg_flags_new', ['C06', 'C04', 'C03', 'C10'], 'Flags::new(..).write == spec_flag_word, all type x bool^4 x version<=15',
-    fn='message::flags::Flags::{new,set_bit,set_type,set_length,set_ns_nr,set_offset,set_prioritized,set_version}')
+reg('msg_flags_new', ['C06'], 'Flags::new(..).write == spec_flag_word, all type x bool^4 x version<=15',
+    fn='message::flags::Flags::{new,set_bit,set_type,set_length,set_ns_nr,set_offset,set_prioritized,set_version}', secondary=['C04', 'C03', 'C10'])
 reg('msg_flags_new_refuses_wide_version', ['C06'], 'Flags::new panics for version > 15 (guard reading)', fn='message::flags::Flags::set_version')
-reg('avp_flags_all', ['C05', 'C12', 'C03'], 'avp::header::Flags::{from,is_mandatory,is_hidden} on all 256 octets',
-    fn='message::avp::header::flags::Flags::{from,get_bit,is_mandatory,is_hidden}')
-reg('enum_error_type', ['C16', 'C05', 'C06'], 'num_enum TryFrom/Into for ErrorType over all 65536 codes', fn='num_enum derive ErrorType')
-reg('enum_proxy_authen_type', ['C16', 'C05', 'C06'], 'num_enum TryFrom/Into for ProxyAuthenType over all 65536 codes', fn='num_enum derive ProxyAuthenType')
+reg('avp_flags_all', ['C05'], 'avp::header::Flags::{from,is_mandatory,is_hidden} on all 256 octets',
+    fn='message::avp::header::flags::Flags::{from,get_bit,is_mandatory,is_hidden}', secondary=['C12', 'C03', 'C11', 'C10'])
+reg('enum_error_type', ['C16'], 'num_enum TryFrom/Into for ErrorType over all 65536 codes', fn='num_enum derive ErrorType', secondary=['C05', 'C06', 'C03', 'C20'])
+reg('enum_proxy_authen_type', ['C16'], 'num_enum TryFrom/Into for ProxyAuthenType over all 65536 codes', fn='num_enum derive ProxyAuthenType', secondary=['C05', 'C06', 'C03'])
 reg('enum_stop_ccn_code', ['C16'], 'StopCcnCode derive + CodeValue::{from,into,as_stop_ccn} over all 65536 codes', fn='num_enum derive StopCcnCode')
 reg('enum_cdn_code', ['C16'], 'CdnCode derive + CodeValue::{from,as_cdn} over all 65536 codes', fn='num_enum derive CdnCode')
-reg('message_type_try_read', ['C16', 'C05', 'C06', 'C20', 'C03', 'C08'], 'MessageType::try_read through the real phf table: all 65536 codes x 0..4 surplus octets; get_code/write',
-    fn='message::avp::types::message_type::MessageType::try_read')
-reg('message_type_try_read_short', ['C05', 'C20', 'C01'], 'MessageType::try_read with < 2 octets', fn='message::avp::types::message_type::MessageType::try_read')
-reg('message_type_try_read_symreader', ['C01', 'C02'], 'MessageType::try_read against any conforming reader: unchecked-call preconditions, all lengths',
-    fn='message::avp::types::message_type::MessageType::try_read')
+reg('message_type_try_read', ['C16', 'C05'], 'MessageType::try_read through the real phf table: all 65536 codes x 0..4 surplus octets; get_code/write',
+    fn='message::avp::types::message_type::MessageType::try_read', secondary=['C06', 'C20', 'C03', 'C08', 'C15', 'C10'])
+reg('message_type_try_read_short', ['C05'], 'MessageType::try_read with < 2 octets', fn='message::avp::types::message_type::MessageType::try_read', secondary=['C20', 'C01'])
+reg('message_type_try_read_symreader', ['C02'], 'MessageType::try_read against any conforming reader: unchecked-call preconditions, all lengths',
+    fn='message::avp::types::message_type::MessageType::try_read', secondary=['C01'])
 reg('bitmask_framing_capabilities', ['C17'], 'FramingCapabilities: new->accessors on bool^2; decode->encode and accessors on all u32')
 reg('bitmask_bearer_capabilities', ['C17'], 'BearerCapabilities: new->accessors on bool^2; decode->encode and accessors on all u32')
 reg('bitmask_bearer_type', ['C17'], 'BearerType: new->accessors on bool^2; decode->encode and accessors on all u32')
 reg('bitmask_framing_type', ['C17'], 'FramingType: new->accessors on bool^2; decode->encode and accessors on all u32')
-reg('slice_reader_ints', ['C18', 'C02', 'C01'], 'SliceReader::read_u{16,32,64}_be_unchecked: value, advance, pointer validity',
-    fn='common::slice_reader::<SliceReader as Reader>::read_u{16,32,64}_be_unchecked', complete=False, bound='backing slice <= 16 octets (bodies inspect <= 8)')
-reg('vec_writer_ints', ['C18', 'C09', 'C06'], 'VecWriter::write_u{16,32,64}_be append big-endian octets after any prefix of <= 3 octets',
-    fn='common::vec_writer::<VecWriter as Writer>::write_u{16,32,64}_be', complete=False, bound='prefix <= 3 octets')
-reg('vec_writer_write_bytes_at', ['C18', 'C09'], 'write_bytes_at overwrites in place, length unchanged', fn='common::vec_writer::<VecWriter as Writer>::write_bytes_at',
-    complete=False, bound='buffer <= 16 octets, patch <= 4 octets')
-reg('vec_writer_write_bytes_at_refuses_outside', ['C18', 'C09', 'C07'], 'write_bytes_at outside the written data panics', fn='common::vec_writer::<VecWriter as Writer>::write_bytes_at',
-    complete=False, bound='buffer <= 16 octets, patch <= 4 octets')
-reg('accm_try_read_symreader', ['C01', 'C02', 'C05', 'C20'], 'Accm::try_read against any conforming reader, all lengths', fn='message::avp::types::accm::Accm::try_read')
-reg('accm_try_read_values', ['C05', 'C03', 'C06'], 'Accm::try_read values / write, 10..12 octets', fn='message::avp::types::accm::Accm::try_read')
+reg('slice_reader_ints', ['C18'], 'SliceReader::read_u{16,32,64}_be_unchecked: value, advance, pointer validity',
+    fn='common::slice_reader::<SliceReader as Reader>::read_u{16,32,64}_be_unchecked', complete=False, bound='backing slice <= 16 octets (bodies inspect <= 8)',
+    secondary=['C02', 'C01', 'C05'])
+reg('vec_writer_ints', ['C18'], 'VecWriter::new is empty; write_u{16,32,64}_be append big-endian octets after any prefix of <= 3 octets',
+    fn='common::vec_writer::{VecWriter::new, <VecWriter as Writer>::write_u{16,32,64}_be}', complete=False, bound='prefix <= 3 octets', secondary=['C09', 'C06'])
+reg('vec_writer_write_bytes_at', ['C18'], 'write_bytes_at overwrites in place, length unchanged', fn='common::vec_writer::<VecWriter as Writer>::write_bytes_at',
+    complete=False, bound='buffer <= 16 octets, patch <= 4 octets', secondary=['C09', 'C06', 'C07'])
+reg('vec_writer_write_bytes_at_refuses_outside', ['C18'], 'write_bytes_at outside the written data panics', fn='common::vec_writer::<VecWriter as Writer>::write_bytes_at',
+    complete=False, bound='buffer <= 16 octets, patch <= 4 octets', secondary=['C09', 'C07'])
+reg('accm_try_read_symreader', ['C02', 'C05'], 'Accm::try_read against any conforming reader, all lengths', fn='message::avp::types::accm::Accm::try_read', secondary=['C01', 'C20'])
+reg('accm_try_read_values', ['C05'], 'Accm::try_read values / write, 10..12 octets', fn='message::avp::types::accm::Accm::try_read', secondary=['C03', 'C06', 'C10'])
 
 
 def harnesses_for(props, tier):
     out = []
     for h in H.values():
-        if set(h['props']) & set(props):
+        if (set(h['props']) | set(h['secondary'])) & set(props):
             if h['tier'] == 'thorough' and tier != 'thorough':
                 continue
             out.append(dict(h))
